@@ -3,6 +3,7 @@ package props
 import (
 	"bytes"
 	"fmt"
+	"runtime"
 	"strings"
 	"sync"
 	"time"
@@ -96,6 +97,7 @@ func init() {
 			for _, p := range []int{2, 8} {
 				bs = append(bs, Batch{Name: fmt.Sprintf("conc-p%d", p), Args: map[string]string{"mode": "conc", "procs": fmt.Sprint(p)}, Race: true, Procs: p, Weight: min(p, 4)})
 			}
+			bs = append(bs, Batch{Name: "ending-p4", Args: map[string]string{"mode": "ending", "procs": "4"}, Race: true, Procs: 4, Weight: 2})
 			return bs
 		},
 		Run: runC08,
@@ -262,6 +264,8 @@ func runC08(c *Ctx) {
 		c.R.Exhaustive["28 methods x every argument position x 22 hostile strings x 5 SplitLen values (others benign)"] = c.Only == ""
 	case "conc":
 		runC08Conc(c)
+	case "ending":
+		runC08Ending(c)
 	case "prng":
 		part, parts := c.ArgInt("part", 0), c.ArgInt("parts", 1)
 		total := c.Pick(120_000, 2_000_000)
@@ -321,6 +325,127 @@ func runC08(c *Ctx) {
 // runC08Conc: several goroutines call command methods at once while server
 // PINGs are answered by the built-in handler; every byte on the wire must
 // belong to exactly one whole expected line.
+// runC08Ending: the connection ends (Close, end of stream, read error) while the writer is blocked in the socket
+// with whole lines still queued behind it, and only then does the server read what is left. Whatever reaches the
+// server must still be whole lines of calls that were made - at most the very last one cut short by the closing
+// socket - however the teardown treats the queue.
+func runC08Ending(c *Ctx) {
+	rounds := c.Pick(40, 600)
+	procs := c.Arg("procs", "?")
+	for idx := 0; idx < rounds; idx++ {
+		if !c.Want("ending", idx) {
+			continue
+		}
+		r := rig.Rand(c.Seed, "C08", "ending", procs, idx)
+		cs := c08Open(c, 450)
+		if cs == nil {
+			return
+		}
+		nCalls := 2 + r.Intn(31) // they all fit: one in the writer's hands, the rest in the 32-line queue
+		cause := []string{"close", "eof", "readerr"}[r.Intn(3)]
+		c.J.Log("CASE %s calls=%d cause=%s", Case("ending", idx), nCalls, cause)
+		expected := map[string]int{}
+		var wants []string
+		cs.mc.Stall(r.Intn(4)) // the server takes 0..3 more writes, then stops reading
+		for k := 0; k < nCalls; k++ {
+			tag := fmt.Sprintf("e%dk%d", idx, k)
+			// texts that would be commands of their own if a line were ever cut open in the middle
+			text := []string{"KICK #c victim :" + tag, tag, "QUIT :" + tag + " " + strings.Repeat("q", r.Intn(300)), "x\r\nJOIN #evil " + tag}[r.Intn(4)]
+			eff := text
+			if i := strings.IndexAny(eff, "\r\n"); i >= 0 {
+				eff = eff[:i]
+			}
+			var want string
+			switch r.Intn(4) {
+			case 0:
+				want = "PRIVMSG #c :" + eff
+				cs.s.Conn.Privmsg("#c", text)
+			case 1:
+				want = "TOPIC #c :" + eff
+				cs.s.Conn.Topic("#c", text)
+			case 2:
+				want = "AWAY :" + eff
+				cs.s.Conn.Away(text)
+			default:
+				want = "NOTICE n :" + eff
+				cs.s.Conn.Notice("n", text)
+			}
+			expected[want]++
+			wants = append(wants, want)
+		}
+		// let the writer pick the first line up and block in the socket
+		for k := 0; k < 20+r.Intn(200); k++ {
+			runtime.Gosched()
+		}
+		disc := make(chan struct{}, 1)
+		cs.s.Conn.HandleFunc(client.DISCONNECTED, func(_ *client.Conn, l *client.Line) { disc <- struct{}{} })
+		switch cause {
+		case "close":
+			go cs.s.Conn.Close()
+		case "eof":
+			cs.mc.SendEOF()
+		case "readerr":
+			cs.mc.SendErr(nil)
+		}
+		if r.Intn(2) == 0 {
+			time.Sleep(time.Duration(50+r.Intn(2000)) * time.Microsecond)
+		} else {
+			for k := 0; k < r.Intn(100); k++ {
+				runtime.Gosched()
+			}
+		}
+		cs.mc.Resume() // now the server reads whatever it is given, until the socket is gone
+		if !waitCh(chanOf(disc)) {
+			ds := rig.ProveDead(WaitShort)
+			if !ds.Dead {
+				c.R.Inconcl(fmt.Sprintf("%s: no DISCONNECTED (%s)", Case("ending", idx), ds.Reason))
+				return
+			}
+			c.R.Count("rounds_abandoned_because_disconnect_never_completed", 1) // C07's business
+			cs.s.Release()
+			continue
+		}
+		raw := cs.mc.Transcript()
+		c.R.Eval(1)
+		c.R.Count("bytes_written_by_ending_connections", int64(len(raw)))
+		rest := string(raw)
+		whole := 0
+		for {
+			i := strings.Index(rest, "\r\n")
+			if i < 0 {
+				break
+			}
+			l := rest[:i]
+			rest = rest[i+2:]
+			if expected[l] == 0 {
+				c.R.Violate(rig.Violation{Sig: "c08|ending-foreign-or-torn-line", Detail: fmt.Sprintf("line %q reached the server of a connection that ended (%s) with lines queued behind a blocked write; it is not a whole line of any call that was made (calls: %q)", clipS(l), cause, clip(wants)), Case: Case("ending", idx)})
+				rest = ""
+				break
+			}
+			expected[l]--
+			whole++
+		}
+		if rest != "" {
+			okPrefix := false
+			for w, n := range expected {
+				if n > 0 && strings.HasPrefix(w+"\r\n", rest) {
+					okPrefix = true
+				}
+			}
+			if !okPrefix {
+				c.R.Violate(rig.Violation{Sig: "c08|ending-torn-tail", Detail: fmt.Sprintf("the last bytes %q written before the socket closed are not the beginning of any line still owed", clipS(rest)), Case: Case("ending", idx)})
+			}
+		}
+		if whole > 0 {
+			c.R.Class(fmt.Sprintf("ending|%s|whole=%d", cause, min(whole, 3)))
+		}
+		cs.s.Release()
+		if c.R.NumViolations() > 10 {
+			return
+		}
+	}
+}
+
 func runC08Conc(c *Ctx) {
 	rounds := c.Pick(25, 300)
 	procs := c.Arg("procs", "?")
